@@ -244,7 +244,7 @@ PROPS = {
     ),
     "C14": dict(
         module="Hb.Props.C14",
-        ties=[("scen", "entry-full", 250, 8000), ("scen", "entry", 250, 8000), ("scen", "set", 150, 5000), ("scen", "panic-entry", 4, 100)],
+        ties=[("scen", "entry-full", 250, 8000), ("scen", "entry", 250, 8000), ("scen", "entry-sat", 150, 5000), ("scen", "set", 150, 5000), ("scen", "panic-entry", 4, 100)],
         backends=["sse2", "portable"],
         design="§7 C14",
         text="Lean theorems for every state satisfying the representation invariant (in particular growth_left = 0, tombstone-"
